@@ -194,6 +194,7 @@ def run(fb, rep, tier):
     r07_4(fb, rep)
     r07_5(fb, rep)
     r07_6(fb, rep, mods)
+    r07_7(fb, rep)
 
 
 GETTER_QUANT = {'lhsRational': 'lhs', 'rhsRational': 'rhs', 'lowerRational': 'low', 'upperRational': 'up', 'objRational': 'obj',
@@ -451,6 +452,8 @@ def r07_5(fb, rep):
             continue
         # under ONLYREAL every reachable read must be preceded, on every path, by a _syncLPRational (which rebuilds the arrays)
         uses = [n for n in uses if not f.in_assert(n)]
+        # x.clear() / x.reSize(n) discard or re-dimension the array: a reset, not a read of its entries
+        uses = [n for n in uses if not (n.parent is not None and n.parent.k == 'MemberExpr' and n.parent.short in ('clear', 'reSize', 'reMax'))]
         key = f.short + '(' + ','.join(M.short_t(t) for _, t in f.params) + ')|reads-range-types'
         if not uses:
             rep.ok('R07.5', key, f.where(), 'only inside assert()', nontrivial=False)
@@ -505,3 +508,53 @@ def r07_6(fb, rep, mods):
                           'range types are not remapped as X[perm[i]] = X[i] under perm[i] >= 0: %s = %s' % (lt, rt))
         if not found:
             rep.bad('R07.6', m.key + '|remap', fn.where(), 'no remapping of %s found' % tf)
+
+
+def r07_7(fb, rep):
+    """R07.7: _rowTypes/_colTypes describe the rows and columns of the rational LP object.  Wherever SoPlexBase creates a rational LP
+    (placement new into _rationalLP), both arrays are reset on every path from the creation to the function's exit: cleared, resized,
+    recomputed, or assigned as a whole (copy of a solver).  Otherwise a new LP inherits the range types of a freed one."""
+    rep.rule('R07.7', 'wherever a rational LP object is created, _rowTypes and _colTypes are reset (cleared / recomputed / assigned) before the function returns', floor=4)
+    C = M.CLS
+    k = 0
+    for f in fb.methods_of(C):
+        if f.mk in ('dtor',) or not f.nodes:
+            continue
+        news = [n for n in f.nodes if n.k == 'CXXNewExpr' and 'SPxLPBase<Rational>' in (n.x.get('at', '') + (n.t or ''))]
+        if not news:
+            continue
+        # only creations that end up in _rationalLP
+        for n in news:
+            tgt = None
+            for a in f.ancestors(n):
+                if a.k == 'BinaryOperator' and a.o == '=':
+                    tgt = render(a.kids[0])
+                    break
+            if tgt != '_rationalLP':
+                continue
+            for fld in ('_rowTypes', '_colTypes'):
+                k += 1
+
+                def resets(x, fld=fld):
+                    if M.types_call(x, fld, ('clear', 'reSize')):
+                        return True
+                    if M.is_this_call(x, '_recomputeRangeTypesRational'):
+                        return True
+                    if x.k == 'CXXOperatorCallExpr' and x.o == '=' and x.args() and render(strip(x.args()[0])) == fld:
+                        return True
+                    return False
+                g = Graph(f, None)
+                b = g.block_of(n)
+                ok, path = g.must_pass(resets, start=b)
+                # a reset in the creating block counts only if it follows the creation
+                if ok and b in g.blocks_with(resets):
+                    after = [x for x in f.nodes if resets(x) and g.block_of(x) == b and x.i > n.i]
+                    if not after:
+                        ok2, path = g.must_pass(resets, start=None)
+                        succ_ok = all(g.must_pass(resets, start=s_)[0] for s_ in g.succ[b])
+                        ok = succ_ok
+                rep.check(ok, 'R07.7', '%s|new rational LP|%s' % (f.short, fld), '%s:%d' % (f.file, n.l), '%s is reset after the creation on every path' % fld,
+                          '%s creates a rational LP object but a path to its exit leaves %s untouched: the new (empty) LP inherits the range types of whatever LP existed before (sizes disagree, stale entries are extended)' % (f.short, fld),
+                          path=g.path_lines(path) if path else None)
+    if k < 4:
+        raise AnalysisBroken('R07.7: only %d creation sites of the rational LP found' % k)
